@@ -1964,3 +1964,52 @@ theorem dirList_after (h : List REv) (max : Nat) :
     exact h2.sublist ((List.take_sublist _ _).map Prod.fst)
 
 end Stats
+
+namespace Stats
+
+/-! ## part 8 — a lookup is by the exact race id: races stored under other ids never matter -/
+
+/-- keeps the stores of exactly this id (and all reads) -/
+def REv.concerns (id : Str) : REv → Bool
+  | .store i _ => i == id
+  | _ => true
+
+theorem lastStored_nil (id : Str) : lastStored [] id = none := rfl
+
+theorem lastStored_filter (h : List REv) (id : Str) :
+    lastStored h id = lastStored (h.filter (REv.concerns id)) id := by
+  induction h using List.reverseRecOn with
+  | nil => rfl
+  | append_singleton l e ih =>
+    rw [List.filter_append, lastStored_snoc]
+    cases e with
+    | store i d =>
+      cases hi : (i == id)
+      · have : [REv.store i d].filter (REv.concerns id) = [] := by simp [REv.concerns, hi]
+        rw [this, List.append_nil]
+        simp only [hi, Bool.false_eq_true, if_false]; exact ih
+      · have : [REv.store i d].filter (REv.concerns id) = [REv.store i d] := by simp [REv.concerns, hi]
+        rw [this, lastStored_snoc]; simp [hi]
+    | find i =>
+      have : [REv.find i].filter (REv.concerns id) = [REv.find i] := by simp [REv.concerns]
+      rw [this, lastStored_snoc]; exact ih
+    | list n =>
+      have : [REv.list n].filter (REv.concerns id) = [REv.list n] := by simp [REv.concerns]
+      rw [this, lastStored_snoc]; exact ih
+
+/-- if no store in the history carries exactly this id, nothing is found — whatever other ids look like -/
+theorem lastStored_none_of_no_store (h : List REv) (id : Str)
+    (hno : ∀ e ∈ h, ∀ i d, e = REv.store i d → i ≠ id) : lastStored h id = none := by
+  induction h using List.reverseRecOn with
+  | nil => rfl
+  | append_singleton l e ih =>
+    rw [lastStored_snoc]
+    have ihl := ih (fun e' he' => hno e' (List.mem_append_left _ he'))
+    cases e with
+    | store i d =>
+      have : (i == id) = false := beq_false_of_ne (hno _ (List.mem_append_right _ (List.mem_singleton.mpr rfl)) i d rfl)
+      simp [this, ihl]
+    | find i => exact ihl
+    | list n => exact ihl
+
+end Stats
